@@ -6,7 +6,7 @@ RULE = ("every signature the implementation returns (raw and API entry points, d
         "RNG, contexts, pre-hash) is decoded by the model with the known secret key and the five conditions are evaluated: "
         "canonical hints, ||z|| < gamma1-beta, <= omega hints, ||LowBits(Ay - c s2)|| < gamma2-beta, ||c t0|| < gamma2, "
         "c~ = H(mu || w1Encode(HighBits(Ay))) with y = z - c s1. The judge itself is checked on signatures that a signer skipping "
-        "one test would emit (forged by the model: must FAIL the judge). distinct_nontrivial = distinct analysed signatures. Volume: scan::judgemany re-derives 48 000 / 480 000 signatures per set and build with the secret key (harness/src/judge.rs).")
+        "one test would emit (forged by the model: must FAIL the judge). distinct_nontrivial = distinct analysed signatures. Volume: scan::judgemany re-derives 48 000 / 192 000 signatures per set and build with the secret key (harness/src/judge.rs).")
 EXPLANATION = ("Props/C06.lean: an emitted signature is the packing of an iteration in which none of the four tests fired, applied to "
                "the quantities the specification names. The identification of those quantities with y = z - c s1 etc. (ring algebra) is "
                "not a theorem yet: partial; the judge evaluates them numerically for every emitted signature.")
@@ -30,7 +30,7 @@ def requests(tier, rng):
     # with the high bits of Ay, |c t0| < gamma2, |z| < gamma1 - beta, the hint vector = MakeHint bit for bit, <= omega ones);
     # Decompose / MakeHint / the bounds are recomputed from the definitions with plain integers. A margin that is wrong by
     # a few units shows once in 10^4..10^5 signatures.
-    chunk = 3000 if tier == "quick" else 30000
+    chunk = 3000 if tier == "quick" else 12000
     for s in K.SETS:
         seed = K.hx(bytes(rng.randrange(256) for _ in range(32)))
         for c in range(16):
